@@ -444,6 +444,8 @@ poke_apps(tp_pair *p)
 }
 
 static uint64_t seeds_key;   /* makes per-scenario RNG */
+static vscript *at_reneg_c, *at_reneg_s;   /* validator script switched on when the renegotiation is requested (mode 2) */
+static int calls_before[2], calls_reneg[2];   /* end_chain calls of the validators before / during the renegotiation */
 
 static void
 run_scenario(const scenario *sc, const fault *f, int record, int alt, outcome *o,
@@ -532,6 +534,11 @@ run_scenario(const scenario *sc, const fault *f, int record, int alt, outcome *o
 				have_ms_before = 1;
 			}
 			R.f = f;
+			/* a validator whose answer changes for the second handshake of the connection */
+			if (at_reneg_c && R.p.c.xw) pre_reset_vscript(&R.p.c, at_reneg_c);
+			if (at_reneg_s && R.p.s.xw) pre_reset_vscript(&R.p.s, at_reneg_s);
+			if (R.p.c.xw) calls_before[0] = R.p.c.xw->n_end_chain;
+			if (R.p.s.xw) calls_before[1] = R.p.s.xw->n_end_chain;
 			if (!tp_act_reneg(&R.p.c)) goto done;
 			tp_pump_until_quiet(&R.p, 1000000);
 			o->reneg_done = tp_ep_ready(&R.p.c) && tp_ep_ready(&R.p.s);
@@ -572,6 +579,8 @@ done:
 		for (i2 = 0; i2 < R.pm.m.rm.n_hs[1]; i2 ++) if (R.pm.m.rm.hs_types[1][i2] == 11) seen11 = 1;
 		o->abbreviated = !seen11;
 	}
+	calls_reneg[0] = R.p.c.xw ? R.p.c.xw->n_end_chain - calls_before[0] : 0;
+	calls_reneg[1] = R.p.s.xw ? R.p.s.xw->n_end_chain - calls_before[1] : 0;
 	if (have_ms_before) {
 		br_ssl_session_parameters sp;
 		br_ssl_engine_get_session_parameters(R.p.c.eng, &sp); o->c_rekeyed = memcmp(ms_before[0], sp.master_secret, 48) != 0;
@@ -978,6 +987,53 @@ auth_scenarios(long long seed)
 					/* accepted chain with an unusable key (type / usage): documented neither way under tolerance: executed, not judged */
 					vf_stat("auth_unjudged_tolerant_unusable_key", 1);
 				}
+			}
+		}
+		/* renegotiation: the validators are consulted again, and their second answer counts: a chain refused (or a key
+		   that does not fit) in the second handshake ends the connection, the endpoint does not come out of it ready on
+		   new secrets, and no further data is delivered; with honest answers the renegotiation completes (control) */
+		{
+			static const int rverd[] = { BR_ERR_X509_NOT_TRUSTED, BR_ERR_X509_EXPIRED, BR_ERR_X509_BAD_SERVER_NAME, 33 };
+			int q, side;
+			for (side = 0; side < 2; side ++) for (q = 0; q < 8; q ++) {
+				scenario sc2 = sc;
+				char nm[100];
+				int victim_ready, victim_err;
+				sc2.mode = 2; sc2.cauth = side ? 1 + ((kx + q) & 1) : (q & 1);
+				vs.verdict = -1; vs.pkey_kind = 0; vs.usages = -1;
+				if (q < 4) vs.verdict = rverd[q];
+				else if (q == 4) vs.pkey_kind = 1;
+				else if (q == 5) vs.pkey_kind = 4;
+				else if (q == 6) vs.pkey_kind = 5;
+				/* q == 7: honest control */
+				if (side && q == 5 && sc2.cauth == 2 && (kx == TP_KX_ECDH_RSA || kx == TP_KX_ECDH_ECDSA)) vs.pkey_kind = 1;
+				at_reneg_c = side ? NULL : &vs; at_reneg_s = side ? &vs : NULL;
+				run_scenario(&sc2, NULL, 0, 0, &o, NULL, NULL, NULL, NULL, NULL, NULL);
+				at_reneg_c = at_reneg_s = NULL;
+				snprintf(nm, sizeof nm, "%s-validator-at-renegotiation:case%d:cauth%d", side ? "server" : "client", q, sc2.cauth);
+				snprintf(tp_case, sizeof tp_case, "%s auth-case=%s", scen_desc, nm);
+				vf_stat("auth_cases", 1);
+				if (!o.hs1_ok) { TP_VIOL("auth-control-failed", "first handshake of a renegotiation scenario did not complete"); continue; }
+				if (calls_reneg[side] < 1) { TP_VIOL("renegotiation-without-validation", "the validator was not consulted for the chain of the second handshake"); continue; }
+				vf_stat("reneg_validator_consulted", 1);
+				victim_ready = side ? (o.s_ready_end && o.s_rekeyed) : (o.c_ready_end && o.c_rekeyed);
+				victim_err = side ? o.s_err : o.c_err;
+				if (q == 7) {
+					if (!o.reneg_done || !o.c_rekeyed || !o.s_rekeyed || o.c_err || o.s_err || !o.c_rx || !o.s_rx)
+						TP_VIOL("auth-control-failed", "honest renegotiation did not complete with new secrets and flowing data");
+					else vf_stat("auth_controls", 1);
+					continue;
+				}
+				if (victim_ready) { TP_VIOL(side ? "unauthenticated-peer-accepted:server:renegotiation" : "unauthenticated-peer-accepted:client:renegotiation", "endpoint completed a renegotiation whose chain its validator refused"); continue; }
+				if (o.c_rx || o.s_rx) { TP_VIOL("data-delivered-to-unauthenticated-peer", "data delivered after a renegotiation whose chain was refused"); continue; }
+				/* (a key that is not the peer's makes the peer fail, silently when it is its record layer that notices) */
+				if (victim_err == 0 && (vs.verdict != -1 || (o.c_err == 0 && o.s_err == 0))) {
+					char w2[200];
+					snprintf(w2, sizeof w2, "endpoint whose validator refused the chain of the renegotiation reports no error (c_err=%d s_err=%d c_ready_end=%d s_ready_end=%d rekeyed=%d/%d closed=%d/%d)",
+						o.c_err, o.s_err, o.c_ready_end, o.s_ready_end, o.c_rekeyed, o.s_rekeyed, o.c_closed, o.s_closed);
+					TP_VIOL("unauthenticated-peer-no-failure", w2); continue;
+				}
+				vf_stat("reneg_refusals", 1);
 			}
 		}
 		/* a session ID learnt from a failed attempt must not be resumable */
